@@ -155,6 +155,7 @@ fn run_engine(ename: &str, tier: &str, seed: u64, first: u64, count: u64, worker
     let (st, timed_out) = run_with_timeout(&mut cmd, timeout);
     let mut violations: Vec<Violation> = Vec::new();
     let mut child_json: Value = json!({});
+    let mut died_unattributed = false;
     let clean = st.map(|s| s.success()).unwrap_or(false);
     if clean {
         child_json = serde_json::from_slice(&std::fs::read(&out).unwrap_or_else(|e| harness_error(&format!("child output: {}", e)))).unwrap_or_else(|e| harness_error(&format!("child json: {}", e)));
@@ -201,7 +202,8 @@ fn run_engine(ename: &str, tier: &str, seed: u64, first: u64, count: u64, worker
             }
         }
         if violations.is_empty() {
-            harness_error("child process died but no in-flight case reproduces the death alone");
+            println!("note: the child process died but no in-flight case reproduces the death alone");
+            died_unattributed = true;
         }
     }
 
@@ -237,7 +239,7 @@ fn run_engine(ename: &str, tier: &str, seed: u64, first: u64, count: u64, worker
         (confirmed, lines)
     };
     let (mut confirmed, mut lines) = confirm(&violations);
-    if !violations.is_empty() && confirmed == 0 && workers > 1 {
+    if ((!violations.is_empty() && confirmed == 0) || died_unattributed) && workers > 1 {
         // Nothing the worker THREADS of the child reported reproduces alone. Those threads run different
         // cases at the same time in one process, which the simulator does not schedule: state that the
         // library keeps per process lets one case disturb another there, and such a report cannot
@@ -254,8 +256,9 @@ fn run_engine(ename: &str, tier: &str, seed: u64, first: u64, count: u64, worker
             }
             let n = per.min(first + count - f);
             let o = scratch.join(format!("iso-{}.json", w));
+            let jn = scratch.join(format!("iso-{}.journal", w));
             let mut c = Command::new(&exe);
-            c.args(["child", ename, "--tier", tier, "--seed", &seed.to_string(), "--first", &f.to_string(), "--cases", &n.to_string(), "--workers", "1"]).arg("--out").arg(&o).stdin(Stdio::null());
+            c.args(["child", ename, "--tier", tier, "--seed", &seed.to_string(), "--first", &f.to_string(), "--cases", &n.to_string(), "--workers", "1"]).arg("--out").arg(&o).arg("--journal").arg(&jn).stdin(Stdio::null());
             match c.spawn() {
                 Ok(ch) => kids.push((ch, o, f, n)),
                 Err(e) => harness_error(&format!("spawn: {}", e)),
@@ -278,7 +281,21 @@ fn run_engine(ename: &str, tier: &str, seed: u64, first: u64, count: u64, worker
                 }
             };
             if !st.map(|s| s.success()).unwrap_or(false) {
-                println!("isolation pass: the process for cases {}..{} ended abnormally ({:?})", f, f + n, st);
+                // a single-worker process: the journal names the one case in flight; the death replays as
+                // "this process again, up to that case" (what the cases before it left behind on the
+                // thread is part of the reproduction)
+                let jn = o.with_extension("journal");
+                let at = pool::read_journal(&jn, 1).first().copied().unwrap_or(f + n - 1);
+                println!("isolation pass: the process for cases {}..{} ended abnormally ({:?}) in case {}", f, f + n, st, at);
+                iso.push(Violation {
+                    property: engine.property().into(),
+                    engine: ename.to_string(),
+                    seed,
+                    case: at,
+                    class: if st.is_none() { "hang".into() } else { "crash".into() },
+                    summary: format!("single-worker process died (status={:?}) in case {} after running cases {}..{} in order", st, at, f, at),
+                    replay: json!({"engine": ename, "property": engine.property(), "seed": seed, "case": at, "tier": tier, "regenerate": true, "range": [f, at - f + 1], "class": if st.is_none() {"hang"} else {"crash"}}),
+                });
                 continue;
             }
             if let Ok(b) = std::fs::read(&o) {
@@ -294,11 +311,11 @@ fn run_engine(ename: &str, tier: &str, seed: u64, first: u64, count: u64, worker
         confirmed = c2;
         lines = l2;
         if confirmed == 0 {
-            println!("HARNESS-ERROR: {} violation(s) were reported by worker threads sharing one process, none reproduces alone and single-worker processes report none that does", violations.len());
+            println!("HARNESS-ERROR: {} violation(s) / an unattributed death were reported by worker threads sharing one process, none reproduces alone and single-worker processes report none that does", violations.len());
         }
     }
     std::fs::remove_dir_all(&scratch).ok();
-    EngineRun { name: ename.to_string(), child_json, lines, confirmed, unconfirmed: !violations.is_empty() && confirmed == 0, planned: count }
+    EngineRun { name: ename.to_string(), child_json, lines, confirmed, unconfirmed: (!violations.is_empty() || died_unattributed) && confirmed == 0, planned: count }
 }
 
 fn parent(args: &Args) {
@@ -636,6 +653,20 @@ fn replay_file(p: &Path, verbose: bool) -> i32 {
         }
         return 1;
     }
+    if v["regenerate"].as_bool() == Some(true) && v.get("range").is_some() {
+        // a death that needs the cases before it on the same thread: the same single-worker process again
+        let (f, n) = (v["range"][0].as_u64().unwrap_or(0), v["range"][1].as_u64().unwrap_or(1));
+        let out = std::env::temp_dir().join(format!("verif-range-replay-{}.json", std::process::id()));
+        let mut c = Command::new(std::env::current_exe().unwrap());
+        c.args(["child", engine, "--tier", v["tier"].as_str().unwrap_or("quick"), "--seed", &v["seed"].as_u64().unwrap_or(1).to_string(), "--first", &f.to_string(), "--cases", &n.to_string(), "--workers", "1"]).arg("--out").arg(&out).stdin(Stdio::null());
+        let (st, to) = run_with_timeout(&mut c, 280);
+        std::fs::remove_file(&out).ok();
+        let died = to || !st.map(|s| s.success()).unwrap_or(false);
+        if verbose {
+            println!("{}", if died { format!("reproduced: the single-worker process for cases {}..{} died again ({:?})", f, f + n, st) } else { "not reproduced".into() });
+        }
+        return if died { 1 } else { 0 };
+    }
     if v["regenerate"].as_bool() == Some(true) {
         // crash / hang cases: regenerate from (seed, case) — the run itself is the reproduction
         let e = engine_by_name(engine);
@@ -739,6 +770,23 @@ fn replay_file(p: &Path, verbose: bool) -> i32 {
                 Some(m) => {
                     if verbose {
                         println!("reproduced property=C13 class=soak-mismatch\n zoo::{} gap={} first={} second={} mode={:?}\n expected={}\n observed={}", zoo::ZOO_NAMES[z % zoo::ZOO_NAMES.len()], gap, i, j, m.mode, m.expected.brief(), m.observed.brief());
+                    }
+                    1
+                }
+                None => {
+                    if verbose {
+                        println!("not reproduced");
+                    }
+                    0
+                }
+            }
+        }
+        "recsim" if v.get("define_twice").is_some() => {
+            let k = &v["define_twice"];
+            match rectypes::define_twice_check(k["kind"].as_u64().unwrap_or(0) as u8, k["via_clone"].as_bool().unwrap_or(false), k["use_between"].as_bool().unwrap_or(false)) {
+                Some((class, exp, obs)) => {
+                    if verbose {
+                        println!("reproduced property=C12 class={}\n first definition: {}\n expected={}\n observed={}", class, k["kind_name"], exp, obs);
                     }
                     1
                 }
@@ -925,6 +973,23 @@ fn minimise_file(src: &Path, dst: &Path) {
             let rp: srcsim::Replay = serde_json::from_value(v).unwrap();
             let m = srcsim::minimise(&rp);
             std::fs::write(dst, serde_json::to_vec_pretty(&m).unwrap()).unwrap();
+        }
+        "recsim" if v.get("define_twice").is_some() => {
+            // three small parameters: try the plain variants
+            let k = v["define_twice"].clone();
+            let kind = k["kind"].as_u64().unwrap_or(0) as u8;
+            let mut d = v.clone();
+            for (vc, ub) in [(false, false), (k["via_clone"].as_bool().unwrap_or(false), false), (false, k["use_between"].as_bool().unwrap_or(false))] {
+                if let Some((class, e, o)) = rectypes::define_twice_check(kind, vc, ub) {
+                    d["define_twice"]["via_clone"] = json!(vc);
+                    d["define_twice"]["use_between"] = json!(ub);
+                    d["class"] = json!(class);
+                    d["expected"] = json!(e);
+                    d["observed"] = json!(o);
+                    break;
+                }
+            }
+            std::fs::write(dst, serde_json::to_vec_pretty(&d).unwrap()).unwrap();
         }
         "recsim" if v.get("rectypes").is_some() => {
             // drop bytes of the input while a recursive form still differs from the unrolling; plain lifecycle
